@@ -245,6 +245,9 @@ fn path_case(ctx: &mut Ctx, r: &mut Rng, long: bool, for_sim: bool) -> Option<Bu
         speed_lo: if for_sim { 8.0 } else { 5.0 },
         use_speed_sets_map: !for_sim,
         cat_power: true,
+        // restrictions conditional on the train (mass, mass per brake, axle count): whether a set is posted for THIS train is
+        // part of what the posted-limit clauses of C03 judge (posted_from_network applies the gating independently)
+        speed_params: true,
         ..Default::default()
     };
     let mut net = gen_line(r, &o);
